@@ -18,11 +18,11 @@ CLAIM = dict(
     note='The exact quadratic/triple-root branches and the skeleton are decided by TLC at design level; the values returned by the real code are judged on harness measurements '
          '(double-double Horner) against per-path constants calibrated on the unchanged tree (22 seeds, 1.96e6 calls) and frozen at >= 100x the worst conforming value: '
          'degree 1: 1e-15 -> 1e-13; degree 2: 2e-15 -> 2e-13; refined cubic 2e-15 -> 2e-13; degree >= 4 refined 5e-15 -> 5e-13; degree >= 4 unrefined 6.3e-11 -> 1e-8; '
-         'unrefined cubic 1.3e-7 (Cardano cancels for near-multiple roots) -> 1e-4. Sequences of calls on ONE object (roots with both flags, repeated, interleaved with '
+         'unrefined cubic, by the conditioning amp = sum|terms|/|dis| of Cardano\'s discriminant (logged as amp_e): amp <= 1e11: 7.5e-11 -> 1e-8; 1e12..1e14: 1.3e-9 -> 1e-6; larger / dis = 0: 1.3e-7 -> 1e-4. Sequences of calls on ONE object (roots with both flags, repeated, interleaved with '
          'IndexMut / coeffs() assignment, push, pop / trim) are judged against the current coefficients, so remembered results are rejected. '
          'Three genuine defect classes are listed in '
          'known_findings.json and reported as KNOWN-FINDING (Laguerre cycling on (near-)symmetric root configurations, degree >= 4: accuracy clauses of the classes '
-         'binomial/ring/sparse/coeffs; loss of a zero root when a cubic is polished: matching clause; unrefined Complex cubic with d1 on the imaginary axis: accuracy clauses); count, finiteness and rejection stay checked for them. "Well separated" is made precise as: all roots distinct and absolute root condition <= 1e3*scale (computed from the true roots at generation '
+         'binomial/ring/sparse/coeffs; loss of a zero root when a cubic is polished: matching clause; unrefined cubic whose Cardano sign rule selects the cancelling branch (event field cancel = true; Re(d1) exactly 0 with the square root on the side opposite to the rule): accuracy clauses - the complementary sub-classes are generated deterministically (class `cardano`) and are strict); count, finiteness and rejection stay checked for them. "Well separated" is made precise as: all roots distinct and absolute root condition <= 1e3*scale (computed from the true roots at generation '
          'time), or distinct Gaussian-integer roots for the TLC cases. Random palindromic / anti-palindromic polynomials are strict at degree <= 6; degree 7-8 (anti-)palindromic polynomials are exercised only through the recorded D16 instances (five explicit degree-8 polynomials (x^n +- 1)(x +- 1)^2(x -+ 1), keyed by their coefficient list `pid8`, unrefined backward-error clause only; their refined runs and every other polynomial stay strict). The path taken inside the real code (which formula, how many Laguerre iterations) is not observed.',
     design='4 (C10)')
 
@@ -79,6 +79,6 @@ def check(ctx):
     ctx.notes.append('calibration (this run): worst backward error %s (units of 1e-15, per path; guards: Roots.tla BeGuardE15 / BeGuardE6; known-finding classes excluded); worst matching distance for separated roots %d units of 1e-12*scale (guard 1e-6 = 1e6 units)' % (worst_be, worst_m))
     return ctx.finish(
         rule='cases: (i) every TLC-expanded product over multisets of small Gaussian-integer roots (f64 when the coefficients are real, Cmplx always), (ii) for every degree 1..12 '
-             'and both coefficient types ten seeded root/coefficient patterns, (iii) the input classes of D4/D8, degree 0 and the empty list, (iv) every combination of zero / real / imaginary / general coefficients in every position of degree-1..3 polynomials with magnitudes spread up to 1e6 both ways, (v) sequences of calls and mutations on one object, (vi) small-integer polynomials (coefficients -3..3): products (a*x^k + b)*q(x) for k = 2..5 (real and Gaussian-integer), palindromic / anti-palindromic polynomials, polynomials in x^2 and x^3 (times a linear factor), degree 4..6; every quintic with coefficients in -3..3 (thorough; a seeded sample in quick) and a sample of the sextics - roots matched against independent reference roots (Aberth iteration + double-double Newton) when these are simple and well conditioned; each with refine = false and true. '
+             'and both coefficient types ten seeded root/coefficient patterns, (iii) the input classes of D4/D8, degree 0 and the empty list, (iv) every combination of zero / real / imaginary / general coefficients in every position of degree-1..3 polynomials with magnitudes spread up to 1e6 both ways, (v) sequences of calls and mutations on one object, and refused calls (degree 0, empty, index out of range, ...) immediately followed on the same thread by ordinary calls of every degree 1..8, twice, (vi) small-integer polynomials (coefficients -3..3): products (a*x^k + b)*q(x) for k = 2..5 (real and Gaussian-integer), palindromic / anti-palindromic polynomials, polynomials in x^2 and x^3 (times a linear factor), degree 4..6; every quintic with coefficients in -3..3 (thorough; a seeded sample in quick) and a sample of the sextics - roots matched against independent reference roots (Aberth iteration + double-double Newton) when these are simple and well conditioned; each with refine = false and true. '
              'One event per call; distinct = distinct (class, degree, settings, measurements).',
         trusted=['harness measurements in double-double (harness/src/suites/roots.rs, dd.rs)', 'TLC', 'Roots.tla / Poly.tla'])
